@@ -373,8 +373,14 @@ def f3_resolver_shape(ctx: Ctx) -> None:
                     (f'not excluded: {[m[4:] for m in missing][:4]}' if missing else 'object dtype not excluded') +
                     ' — NumPy would promote (e.g. str + int -> str, bool + int -> int) instead of going to object', key=key)
     # equal dtypes short-circuit
-    first = f.node.body[1] if isinstance(f.node.body[0], ast.Expr) else f.node.body[0]
-    good = isinstance(first, ast.If) and norm(first.test) == 'dt1 == dt2' and norm(first.body[0]) == 'return dt1'
+    # the first deciding statement (docstring / pass / assert aside) returns one of the two arguments when they are equal
+    deciding = [x for x in f.node.body if not isinstance(x, (ast.Pass, ast.Assert)) and not (isinstance(x, ast.Expr) and isinstance(x.value, ast.Constant))]
+    first = deciding[0] if deciding else f.node
+    p1, p2 = (f.params + ['dt1', 'dt2'])[:2]
+    good = isinstance(first, ast.If) and isinstance(first.test, ast.Compare) and len(first.test.ops) == 1 and isinstance(first.test.ops[0], ast.Eq) \
+        and {norm(first.test.left), norm(first.test.comparators[0])} == {p1, p2} \
+        and len(first.body) >= 1 and isinstance(first.body[-1], ast.Return) and norm(first.body[-1].value) in (p1, p2) \
+        and all(isinstance(x, (ast.Pass, ast.Return)) for x in first.body)
     (ctx.ok if good else ctx.bad)(R, f, first, 'equal dtypes are returned unchanged' if good else 'the equal-dtype short-circuit changed', key='equal-shortcut')
     # TypeBlocks.append row dtype widening
     g = prog.method('TypeBlocks', 'append', inherited=False)
